@@ -736,7 +736,9 @@ class AndMaybeMatcher(AdditiveBiMatcher):
         ra = self.a.skip_to(id)
         rb = False
         if self.a.is_active() and self.b.is_active():
-            rb = self.b.skip_to(id)
+            # The optional matcher must catch up with the required matcher's
+            # new position (which may be beyond the requested id)
+            rb = self.b.skip_to(self.a.id())
         return ra or rb
 
     def replace(self, minquality=0):
